@@ -476,6 +476,7 @@ def c12(ctx: Ctx) -> None:
     ctx.rule('C12-R7', 'a non-blocking acquire can never reach time.sleep; the thread lock gets the normalised arguments', 2)
     ctx.rule('C12-R8', 'timed wait: stage-2 clock starts after stage 1, every sleep cycle passes the deadline test, sleep(poll_interval)', 3)
     ctx.rule('C12-R9', 'every path through release() past the is_locked test releases the thread lock, also when the OS release fails', 1)
+    ctx.rule('C12-R10', 'the nesting counter is updated only while the in-process lock is held', 1)
     # R1 acquire
     try:
         it, outs = run_acquire(ctx, r)
@@ -502,6 +503,17 @@ def c12(ctx: Ctx) -> None:
                       witness=s.trace, construct=construct_key(r.acquire.qualname, 'imbalance', o.kind, str(rv),
                                                                repr(s.v['CNT']), repr(s.v['DEPTH'])))
         ctx.extra['acquire_paths'] = it.paths
+        seen10 = set()
+        for gg, n_, s_ in it.unprotected:
+            if n_.id in seen10:
+                continue
+            seen10.add(n_.id)
+            ctx.violation('C12-R10', f'acquire(): {norm(n_.meta.get("stmt") or n_.ast)} with DEPTH={s_.v["DEPTH"]!r}', gg.loc(n_),
+                          'the nesting counter is updated without holding the in-process lock: another thread\'s acquire/release interleaves '
+                          'with it and the counter no longer matches the lock depth (the OS lock is kept or dropped at the wrong release)',
+                          witness=s_.trace, construct=construct_key(r.acquire.qualname, 'counter update without TL'))
+        if not it.unprotected:
+            ctx.holds('C12-R10', 'acquire(): every counter update happens with the in-process lock held', f'{FILE}:{r.acquire.lineno}')
     except Undecided as e:
         ctx.undecided('C12-R1', 'acquire()', f'{FILE}:{r.acquire.lineno}', str(e))
     # R1 release (held), R2, R9 ; R4 (unheld)
